@@ -120,6 +120,9 @@ def norm_pattern(pattern: AnyStr, normalize: bool | None, is_raw_chars: bool) ->
             char = bytes([value]) if is_bytes else chr(value)
         elif is_raw_chars and not is_bytes and m.group(5):
             char = unicodedata.lookup(m.group(5)[3:-1])
+        elif not is_bytes and m.group(5):
+            # Without `RAWCHARS`, `\N{...}` is not one escape: `\N` is an ordinary escape, the rest is pattern text like any other
+            char = m.group(0)[:2] + pat.sub(norm, m.group(0)[2:])
         elif not is_raw_chars or m.group(5 if is_bytes else 6):
             char = m.group(0)
         else:
